@@ -20,7 +20,17 @@ import time
 HERE = os.path.dirname(os.path.dirname(os.path.abspath(__file__)))
 
 
-def stable_tests_pass(repo):
+def stable_tests_pass(repo, retries=2):
+    """The pinned suite binds a fixed abstract socket: concurrent runs on this machine collide, so retry."""
+    ok, missing = _stable_tests_pass(repo)
+    while not ok and retries > 0:
+        time.sleep(3)
+        retries -= 1
+        ok, missing = _stable_tests_pass(repo)
+    return ok, missing
+
+
+def _stable_tests_pass(repo):
     out = os.path.join(repo, '.junit.xml')
     subprocess.run(['/venv/bin/python', '-m', 'pytest', '-q', '-p', 'no:cacheprovider', '--timeout=900',
                     '--junitxml=' + out], cwd=repo, stdout=subprocess.DEVNULL, stderr=subprocess.DEVNULL,
@@ -67,6 +77,7 @@ def main():
                 r = subprocess.run(['patch', '-p1', '-d', repo, '-i', p], capture_output=True, text=True)
             if r.returncode != 0:
                 results.append((name, props, 'PATCH-FAILED', r.stderr[-200:] + r.stdout[-200:]))
+                print('%-52s %-6s %-22s %s' % (name, ','.join(props), 'PATCH-FAILED', results[-1][3][:200]), flush=True)
                 continue
             tests = ''
             if run_tests:
@@ -82,11 +93,11 @@ def main():
                 verdict = {0: 'MISSED', 1: 'caught', 2: 'INCONCLUSIVE'}.get(r.returncode, 'rc%d' % r.returncode)
                 results.append((name, [prop], verdict + ' ' + tests, '%.0fs ' % (time.time() - t0) +
                                 ' | '.join(lines[:4])[:300]))
+                print('%-52s %-6s %-22s %s' % ((name, prop) + results[-1][2:]), flush=True)
         finally:
             shutil.rmtree(tmp, ignore_errors=True)
     bad = 0
     for name, props, verdict, detail in results:
-        print('%-52s %-6s %-22s %s' % (name, ','.join(props), verdict, detail))
         if not verdict.startswith('caught'):
             bad += 1
     print('%d mutant runs, %d not caught' % (len(results), bad))
